@@ -743,13 +743,13 @@ spif_mbuff_trim(spif_mbuff_t self)
 
     ASSERT_RVAL(!SPIF_MBUFF_ISNULL(self), FALSE);
     start = self->buff;
-    end = self->buff + self->len - 1;
-    for (; isspace((spif_uchar_t) (*start)) && (start < end); start++);
-    for (; isspace((spif_uchar_t) (*end)) && (start < end); end--);
-    if (start > end) {
+    end = self->buff + self->len;
+    for (; (start < end) && isspace((spif_uchar_t) (*start)); start++);
+    for (; (start < end) && isspace((spif_uchar_t) (*(end - 1))); end--);
+    if (start == end) {
         return spif_mbuff_done(self);
     }
-    self->len = (spif_memidx_t) (end - start + 1);
+    self->len = (spif_memidx_t) (end - start);
     if (start > self->buff) {
         memmove(self->buff, start, self->len);
     }
